@@ -1,4 +1,4 @@
-import KanidmProofs.Lemmas.SyncScopeApply
+import KanidmProofs.Lemmas.SyncScopeHistory
 import KanidmProofs.C24
 /-
 C50 — Synchronisation agreements stay inside their own scope.
@@ -386,5 +386,394 @@ theorem user_changes_only_yielded_plus_session_state (id : Ident) (hu : IsUser i
         ((subset_iff _ _).mp h1 x (addsAttr_mem_requestedPres hm hx)))
     · exact hcon x (mem_constrainWith_con hne
         ((subset_iff _ _).mp h2 x (removesAttr_mem_requestedRem hm hx)))
+
+/-- the yield-authority set the access code holds for agreement `su` (`sync_agreements` map) -/
+def yieldOf (st : State) (su : Nat) : List Nat := ((agreementsOf st).lookup su).getD []
+
+/-- **A user's accepted modification, through the model's step.** After `userModify` by a user,
+the stored entries are position by position the same except the live entries with the target uuid;
+and if such an entry is synchronised (class `sync_object`, not otherwise protected) it has a parent
+agreement `su`, and every part of it named by an attribute outside the four session /
+credential-reset attributes and outside `su`'s stored yield set — attribute values, classes, the
+owner, the external id, the sync classes — is unchanged; uuid, cookie, yield set and lifecycle
+never change. -/
+theorem user_step_changes_only_yielded (id : Ident) (hu : IsUser id) (acps : List AcpModify)
+    (st st' : State) (target : Nat) (ml : List Mod)
+    (h : userModify id acps st target ml = .ok st') :
+    Rel2 (fun e e' =>
+      e'.uuid = e.uuid ∧ e'.cookie = e.cookie ∧ e'.yieldAuth = e.yieldAuth ∧ e'.life = e.life ∧
+      ((e.uuid ≠ target ∨ e.masked = true) → e' = e) ∧
+      (e.uuid = target → e.masked = false → C.SyncObject ∈ e.classes → e.uuid > uuidAnonymous →
+        disjoint e.classes modifyGateClasses = true →
+        ∃ su, e.syncParent = some su ∧
+          ∀ a, a ∉ sessionStateSpec → a ∉ yieldOf st su → SameAt a e e')) st st' := by
+  unfold userModify at h
+  split at h
+  · cases h
+  · simp only at h
+    split at h
+    · cases h
+    · split at h
+      · cases h
+      · rename_i hacc
+        split at h
+        · cases h
+        · rename_i hsome
+          injection h with h
+          subst h
+          apply Rel2.map_right
+          intro x hx
+          by_cases hsel : (x.uuid == target && !x.masked) = true
+          · simp only [hsel, if_true]
+            have hsel' : x.uuid = target ∧ x.masked = false := by simpa using hsel
+            have hcand : x ∈ st.filter (fun e => e.uuid == target && !e.masked) :=
+              List.mem_filter.mpr ⟨hx, hsel⟩
+            have hs : (applyUserMods x ml).isSome = true := by
+              have hall : (List.all (st.filter fun e => e.uuid == target && !e.masked)
+                  fun e => (applyUserMods e ml).isSome) = true := by
+                cases hb : (List.all (st.filter fun e => e.uuid == target && !e.masked)
+                  fun e => (applyUserMods e ml).isSome) with
+                | true => rfl
+                | false => rw [hb] at hsome; exact absurd rfl hsome
+              exact List.all_eq_true.mp hall x hcand
+            obtain ⟨x', hx'⟩ := Option.isSome_iff_exists.mp hs
+            simp only [hx', Option.getD]
+            obtain ⟨i1, i2, i3, i4⟩ := applyUserMods_inv ml x x' hx'
+            refine ⟨i1, i2, i3, i4, ?_, ?_⟩
+            · rintro (hne | hm)
+              · exact absurd hsel'.1 hne
+              · rw [hsel'.2] at hm; cases hm
+            · intro _ _ hsync hanon hgate
+              have hop : modifyAllowOperation id acps (agreementsOf st)
+                  ((st.filter fun e => e.uuid == target && !e.masked).map toEnt) ml = true := by
+                simpa using hacc
+              unfold modifyAllowOperation at hop
+              have hper := List.all_eq_true.mp hop (toEnt x) (List.mem_map.mpr ⟨x, hcand, rfl⟩)
+              have hlive : x.life = .live := live_of_not_masked hsel'.2
+              have hcls : (toEnt x).classes = some x.classes := by
+                simp [toEnt, hlive, lifeClasses]
+              obtain ⟨su, hpar, hall⟩ := user_changes_only_yielded_plus_session_state id hu acps
+                (agreementsOf st) (toEnt x) ml x.classes hcls hsync hanon hgate hper
+              refine ⟨su, hpar, fun a hns hny => ?_⟩
+              apply applyUserMods_same' a ml x x' _ hx'
+              intro m hm
+              cases m with
+              | assert k v => exact .inl rfl
+              | present k v =>
+                right
+                intro hk
+                rcases hall _ hm k (.inl rfl) with h1 | h1
+                · exact hns (by rw [← hk]; exact h1)
+                · exact hny (by rw [← hk]; exact h1)
+              | removed k v =>
+                right
+                intro hk
+                rcases hall _ hm k (.inr rfl) with h1 | h1
+                · exact hns (by rw [← hk]; exact h1)
+                · exact hny (by rw [← hk]; exact h1)
+              | purged k =>
+                right
+                intro hk
+                rcases hall _ hm k (.inr rfl) with h1 | h1
+                · exact hns (by rw [← hk]; exact h1)
+                · exact hny (by rw [← hk]; exact h1)
+              | set k vs =>
+                right
+                intro hk
+                rcases hall _ hm k (.inl rfl) with h1 | h1
+                · exact hns (by rw [← hk]; exact h1)
+                · exact hny (by rw [← hk]; exact h1)
+          · have hsel' : (x.uuid == target && !x.masked) = false := by simpa using hsel
+            simp only [hsel']
+            refine ⟨rfl, rfl, rfl, rfl, fun _ => rfl, ?_⟩
+            intro ht hm
+            have : (x.uuid == target && !x.masked) = true := by simp [ht, hm]
+            rw [this] at hsel'
+            cases hsel'
+
+/-! ### histories -/
+
+/-- **No history creates an entry in the reserved range.** Whatever sequence of sync requests (of
+any identities), yield-authority changes and user modifications is applied, and whatever the
+stages that are not modelled decide, every stored entry afterwards has the uuid of an initially
+stored entry or a uuid outside the reserved range. -/
+theorem history_no_new_reserved (sch : Schema) (ops : List Op) : ∀ (st0 st : State),
+    (∀ e', e' ∈ st → (∃ e, e ∈ st0 ∧ e.uuid = e'.uuid) ∨ reservedBound ≤ e'.uuid) →
+    ∀ e', e' ∈ run sch st ops → (∃ e, e ∈ st0 ∧ e.uuid = e'.uuid) ∨ reservedBound ≤ e'.uuid := by
+  induction ops with
+  | nil => intro st0 st h; exact h
+  | cons op rest ih =>
+    intro st0 st h
+    rw [run_cons]
+    apply ih
+    rcases step_cases sch st op with hs | ⟨st', hr, hs⟩
+    · rw [hs]; exact h
+    · rw [hs]
+      intro e' he'
+      cases op with
+      | sync id req later =>
+        obtain ⟨su, _, _, ⟨pre', news, he, r, hn⟩, _⟩ := apply_frame sch id st req st' (stepRes_sync_ok hr)
+        subst he
+        rcases List.mem_append.mp he' with hp | hnw
+        · obtain ⟨e, he, f⟩ := r.mem_right hp
+          rw [f.uuid]
+          exact h e he
+        · right
+          have n := hn e' hnw
+          have h2 : ¬ (e'.uuid < reservedBound) := by
+            intro hlt
+            have := (stubRange_spec _).mpr hlt
+            rw [n.range] at this
+            cases this
+          omega
+      | yield su y =>
+        have hr' : setYield st su y = .ok st' := hr
+        obtain ⟨e, he, hu⟩ := (setYield_uuids st st' su y hr').mem_right he'
+        rw [hu]
+        exact h e he
+      | user id acps target ml later =>
+        obtain ⟨e, he, hu⟩ := (userModify_uuids id acps st st' target ml (stepRes_user_ok hr)).mem_right he'
+        rw [hu]
+        exact h e he
+
+/-- What a history of sync requests leaves of an entry none of the acting agreements owns. -/
+structure Survives (sch : Schema) (S : Nat → Prop) (e e' : Entry) : Prop where
+  uuid : e'.uuid = e.uuid
+  parent : e'.syncParent = e.syncParent
+  life : e'.life = e.life
+  ext : e'.extId = e.extId
+  sc : e'.syncClasses = e.syncClasses
+  yld : e'.yieldAuth = e.yieldAuth
+  cls : ∀ c, c ∈ e'.classes ↔ c ∈ e.classes
+  cookie : e'.cookie = e.cookie ∨ S e.uuid
+  attrs : ∃ D, ∀ a, getA e'.attrs a = stripped sch.refAttrs D e.attrs a
+
+theorem Survives.refl (sch : Schema) (S : Nat → Prop) (e : Entry) : Survives sch S e e :=
+  ⟨rfl, rfl, rfl, rfl, rfl, rfl, fun _ => Iff.rfl, .inl rfl, [], fun a => (stripped_nil _ _ a).symm⟩
+
+theorem Survives.trans {sch : Schema} {S : Nat → Prop} {e e' e'' : Entry} (f : Survives sch S e e')
+    (g : Survives sch S e' e'') : Survives sch S e e'' where
+  uuid := by rw [g.uuid, f.uuid]
+  parent := by rw [g.parent, f.parent]
+  life := by rw [g.life, f.life]
+  ext := by rw [g.ext, f.ext]
+  sc := by rw [g.sc, f.sc]
+  yld := by rw [g.yld, f.yld]
+  cls := fun c => (g.cls c).trans (f.cls c)
+  cookie := by
+    rcases f.cookie with h1 | h1
+    · rcases g.cookie with h2 | h2
+      · exact .inl (by rw [h2, h1])
+      · exact .inr (by rw [← f.uuid]; exact h2)
+    · exact .inr h1
+  attrs := by
+    obtain ⟨D1, h1⟩ := f.attrs
+    obtain ⟨D2, h2⟩ := g.attrs
+    refine ⟨D1 ++ D2, fun a => ?_⟩
+    rw [h2 a, stripped_eq, h1 a, stripped_eq, stripVals_stripVals, ← stripped_eq]
+
+/-- position by position: uuid and owner stay, and an entry no acting agreement owns survives -/
+def HRel (sch : Schema) (S : Nat → Prop) (e e' : Entry) : Prop :=
+  e'.uuid = e.uuid ∧ e'.syncParent = e.syncParent ∧
+    ((∀ su, S su → e.syncParent ≠ some su) → Survives sch S e e')
+
+theorem HRel.trans {sch : Schema} {S : Nat → Prop} (a b c : Entry) (f : HRel sch S a b)
+    (g : HRel sch S b c) : HRel sch S a c :=
+  ⟨by rw [g.1, f.1], by rw [g.2.1, f.2.1], fun hn =>
+    (f.2.2 hn).trans (g.2.2 (fun su hs => by rw [f.2.1]; exact hn su hs))⟩
+
+/-- **Over all request sequences: agreements never touch what they do not own.** Take any history
+of sync requests, by any identities, with any outcome of the stages that are not modelled, and let
+`S` contain every agreement that acts in it. Then the initially stored entries are still stored at
+their positions with their uuid and owner, and every entry whose `sync_parent_uuid` is none of the
+acting agreements — native entries, entries of agreements that do not act, recycled and tombstoned
+entries of those — survives: all fields equal, except the `sync_cookie` of an acting agreement's
+own account entry and references to entries that acting agreements deleted. -/
+theorem history_foreign_entries_untouched (sch : Schema) (S : Nat → Prop) (ops : List Op) :
+    (∀ op, op ∈ ops → ∃ id req later, op = .sync id req later ∧
+      ∀ su, id.origin = .synch su → S su) →
+    ∀ st : State, ∃ pre' rest, run sch st ops = pre' ++ rest ∧ Rel2 (HRel sch S) st pre' := by
+  induction ops with
+  | nil =>
+    intro _ st
+    exact ⟨st, [], by simp [run_nil], Rel2.refl (fun e => ⟨rfl, rfl, fun _ => Survives.refl _ _ _⟩) _⟩
+  | cons op rest ih =>
+    intro hops st
+    rw [run_cons]
+    have ih' := ih (fun o ho => hops o (List.mem_cons_of_mem _ ho))
+    rcases step_cases sch st op with hs | ⟨st', hr, hs⟩
+    · rw [hs]; exact ih' st
+    · rw [hs]
+      obtain ⟨id, req, later, rfl, hS⟩ := hops op List.mem_cons_self
+      obtain ⟨su, ho, _, ⟨pre1, news, he, r, _⟩, _⟩ := apply_frame sch id st req st' (stepRes_sync_ok hr)
+      have hsu := hS su ho
+      have r1 : Rel2 (HRel sch S) st pre1 := by
+        refine Rel2.mono (fun e e' f => ?_) r
+        refine ⟨f.uuid, f.parent, fun hn => ?_⟩
+        have u := Untouched.of_frame f (hn su hsu)
+        exact
+          { uuid := u.uuid, parent := u.parent, life := u.life, ext := u.ext, sc := u.sc, yld := u.yld
+            cls := u.cls
+            cookie := by
+              rcases u.cookie with h | h
+              · exact .inl h
+              · exact .inr (by rw [h]; exact hsu)
+            attrs := by
+              obtain ⟨D, _, h⟩ := u.attrs
+              exact ⟨D, h⟩ }
+      obtain ⟨pre2, rest2, he2, r2⟩ := ih' st'
+      rw [he] at r2
+      obtain ⟨pa, pb, hsplit, ra, _⟩ := Rel2.split_append r2
+      refine ⟨pa, pb ++ rest2, by rw [he2, hsplit, List.append_assoc], Rel2.trans HRel.trans r1 ra⟩
+
+/-- The same, read at a position: the entry stored at position `i` that none of the acting
+agreements owns `Survives` the history. -/
+theorem history_foreign_entry_at (sch : Schema) (S : Nat → Prop) (ops : List Op)
+    (hops : ∀ op, op ∈ ops → ∃ id req later, op = .sync id req later ∧
+      ∀ su, id.origin = .synch su → S su)
+    (st : State) (i : Nat) (hi : i < st.length) (hn : ∀ su, S su → st[i].syncParent ≠ some su) :
+    ∃ hi' : i < (run sch st ops).length, Survives sch S st[i] (run sch st ops)[i] := by
+  obtain ⟨pre', rest, he, r⟩ := history_foreign_entries_untouched sch S ops hops st
+  have hl := r.length_eq
+  have hip : i < pre'.length := by omega
+  have hi' : i < (run sch st ops).length := by rw [he, List.length_append]; omega
+  refine ⟨hi', ?_⟩
+  have hget : (run sch st ops)[i] = pre'[i] := by
+    simp only [he]
+    exact List.getElem_append_left hip
+  rw [hget]
+  exact (r.get i hi hip).2.2 hn
+
+/-! ### non-vacuity: concrete states, requests and histories meeting the hypotheses -/
+
+namespace Witness
+
+/-- `applied` is an accepted request on a state with an agreement, one of its entries and a native
+group: the hypotheses of every `apply … = .ok _` theorem above are satisfiable. -/
+example : ∃ st', apply sch id st req = .ok st' := ⟨_, applied⟩
+
+/-- the agreement deletes its account: the account is recycled, the native group only loses the
+reference to it (`Untouched` with `D = [account]`), nothing else moves -/
+def reqDelete : Request :=
+  { fromState := .refresh, toState := .active 9, entries := [], retain := .delete [5 + 2 ^ 48] }
+
+example : apply sch id st reqDelete =
+    .ok [{ agreement with cookie := some 9 }, { person with life := .recycled },
+         { native with attrs := [(A.Member, [78 + 2 ^ 48])] }] := by rfl
+
+/-- a second agreement and one of its entries -/
+def agreementB : Entry := { agreement with uuid := 601 + 2 ^ 48, yieldAuth := none }
+def personB : Entry := { person with uuid := 6 + 2 ^ 48, syncParent := some (601 + 2 ^ 48) }
+def recycled : Entry := { person with uuid := 7 + 2 ^ 48, life := .recycled }
+def st2 : State := [agreement, person, native, agreementB, personB, recycled]
+
+def reqFor (u : Nat) : Request :=
+  { fromState := .refresh, toState := .active 9,
+    entries := [{ id := u, extId := some 4, schemas := [some C.Account], attrs := [(A.Name, some [3])] }],
+    retain := .ignore }
+
+/-- `sync_touches_only_owned`: naming another agreement's entry or a native entry fails the parent
+assertion; deleting them is refused; `masked_ids_refused`: a recycled id is refused -/
+example : apply sch id st2 (reqFor (6 + 2 ^ 48)) = .error .modifyAssertionFailed := by rfl
+example : apply sch id st2 (reqFor (77 + 2 ^ 48)) = .error .modifyAssertionFailed := by rfl
+example : apply sch id st2 { reqDelete with retain := .delete [6 + 2 ^ 48] } = .error .accessDenied := by
+  rfl
+example : apply sch id st2 (reqFor (7 + 2 ^ 48)) = .error .invalidEntryState := by rfl
+/-- deleting an already recycled id is skipped, not an error; the refresh with an empty entry set
+deletes the agreement's own live entry and nothing else -/
+example : apply sch id st2 { reqDelete with retain := .delete [7 + 2 ^ 48] } =
+    .ok [{ agreement with cookie := some 9 }, { person with life := .recycled },
+         { native with attrs := [(A.Member, [78 + 2 ^ 48])] }, agreementB, personB, recycled] := by rfl
+
+/-- `sync_never_creates_reserved`: the last reserved uuid is refused, the first free one creates a
+stub owned by the agreement -/
+example : apply sch id st2 (reqFor (2 ^ 48 - 1)) = .error .invalidEntryState := by rfl
+example : apply sch id st2 (reqFor (2 ^ 48)) =
+    .ok [{ agreement with cookie := some 9 }, { person with life := .recycled },
+         { native with attrs := [(A.Member, [78 + 2 ^ 48])] }, agreementB, personB, recycled,
+         { uuid := 2 ^ 48, life := .live, classes := [C.Object, C.SyncObject, C.Account],
+           syncParent := some (600 + 2 ^ 48), extId := some 4, syncClasses := [C.Account],
+           cookie := none, yieldAuth := none, attrs := [(A.Name, [3])] }] := by rfl
+
+/-- `sync_needs_synch_identity`: the same request with a read-write scope, or from a user -/
+example : apply sch ⟨.synch (600 + 2 ^ 48), .readWrite⟩ st2 (reqFor (2 ^ 48)) = .error .accessDenied := by
+  rfl
+example : apply sch ⟨.user 9 none, .synchronise⟩ st2 (reqFor (2 ^ 48)) = .error .accessDenied := by rfl
+
+/-- an attribute that is yielded, not synchronisable, or not of a requested class is rejected -/
+example : apply sch id st2
+    { reqFor (5 + 2 ^ 48) with
+      entries := [{ id := 5 + 2 ^ 48, extId := some 3, schemas := [some C.Account],
+                    attrs := [(A.PrimaryCredential, some [8])] }] } = .error .invalidEntryState := by rfl
+example : apply sch id st2
+    { reqFor (5 + 2 ^ 48) with
+      entries := [{ id := 5 + 2 ^ 48, extId := some 3, schemas := [some C.Account],
+                    attrs := [(A.SyncParentUuid, some [601 + 2 ^ 48])] }] } = .error .invalidEntryState := by
+  rfl
+/-- a class that is not `sync_allowed` is rejected -/
+example : apply sch id st2
+    { reqFor (5 + 2 ^ 48) with
+      entries := [{ id := 5 + 2 ^ 48, extId := some 3, schemas := [some C.System], attrs := [] }] } =
+    .error .invalidEntryState := by rfl
+
+/-- a history of two agreements acting in turn: `history_foreign_entries_untouched` with
+`S = {A, B}` speaks about the native group, with `S = {A}` also about B's entry -/
+def idB : Ident := ⟨.synch (601 + 2 ^ 48), .synchronise⟩
+def history : List Op :=
+  [.sync id (reqFor (2 ^ 48)) true, .sync idB { reqDelete with retain := .retain [] } true,
+   .sync id reqDelete false, .sync id reqDelete true]
+
+example : (run sch st2 history).length = 7 := by decide
+example : ((run sch st2 history)[2]?).map (·.attrs) = some [(A.Member, [78 + 2 ^ 48])] := by decide
+example : ((run sch st2 history)[4]?).map (·.life) = some .recycled := by decide
+
+/-- the schema of the witness has no synchronisable structural attribute -/
+example : sch.structuralNotSyncable = true := by decide
+
+end Witness
+
+namespace UserWitness
+open Kanidm.Filter
+
+def g1 : Nat := 0x10000000000040008000000000000100
+def alice : Ident := ⟨.user 0x10000000000040008000000000000200 (some [g1]), .readWrite⟩
+/-- a profile granting every attribute used below, and class changes -/
+def acp : AcpModify :=
+  ⟨⟨.group [g1], some (.pres A.Class)⟩,
+   [A.LegalName, A.DisplayName, A.UserAuthTokenSession, A.Class, A.SyncParentUuid],
+   [A.LegalName, A.DisplayName, A.UserAuthTokenSession, A.Class, A.SyncParentUuid],
+   [C.PosixAccount], [C.Person]⟩
+def su : Nat := 600 + 2 ^ 48
+def synced : Ent := toEnt Witness.person
+def orphan : Ent := { synced with syncParent := none }
+
+/-- hypotheses of `user_changes_only_yielded_plus_session_state` hold for `synced` -/
+example : synced.classes = some [C.Object, C.SyncObject, C.Account] := by decide
+example : synced.uuid > uuidAnonymous := by decide
+example : disjoint [C.Object, C.SyncObject, C.Account] modifyGateClasses = true := by decide
+
+/-- yielded attribute: allowed; the same attribute when not yielded: refused -/
+example : modifyAllowPerEntry alice (modifyRelatedAcp alice [acp]) [(su, [A.LegalName])] synced
+    [.present A.LegalName 1] = true := by decide
+example : modifyAllowPerEntry alice (modifyRelatedAcp alice [acp]) [(su, [A.DisplayName])] synced
+    [.present A.LegalName 1] = false := by decide
+/-- session state: always allowed -/
+example : modifyAllowPerEntry alice (modifyRelatedAcp alice [acp]) [] synced
+    [.purged A.UserAuthTokenSession] = true := by decide
+/-- the ownership marker and classes: refused although the profile grants them -/
+example : modifyAllowPerEntry alice (modifyRelatedAcp alice [acp]) [(su, [A.LegalName])] synced
+    [.purged A.SyncParentUuid] = false := by decide
+example : modifyAllowPerEntry alice (modifyRelatedAcp alice [acp]) [(su, [A.LegalName])] synced
+    [.present A.Class C.PosixAccount] = false := by decide
+/-- a synchronised entry without parent: nothing is allowed -/
+example : modifyAllowPerEntry alice (modifyRelatedAcp alice [acp]) [(su, [A.LegalName])] orphan
+    [.purged A.UserAuthTokenSession] = false := by decide
+/-- through the model's step: the yield set is read from the stored agreement -/
+example : (userModify alice [acp] [{ Witness.agreement with yieldAuth := some [A.LegalName] },
+    Witness.person] (5 + 2 ^ 48) [.present A.LegalName 1]).toOption.isSome = true := by decide
+example : (userModify alice [acp] Witness.st (5 + 2 ^ 48) [.present A.LegalName 1]).toOption.isSome
+    = false := by decide
+
+end UserWitness
 
 end Kanidm.SyncScope
